@@ -34,6 +34,8 @@ func init() {
 func runC01(w *World, r *Report) {
 	ruleErrID(w, r)
 	ruleErrChk(w, r)
+	// an error found non-nil is never turned into success on the way out (parser, compiler, EvalBool, …)
+	ruleErrDrop(w, r, c06Closure(w, r, "R-ERRDROP"))
 	ruleLeafOrder(w, r)
 	ruleKind(w, r)
 	ruleKindSwitch(w, r)
@@ -287,6 +289,71 @@ func ruleErrChk(w *World, r *Report) {
 					}
 				}
 			}
+			// several arms share one test: the error and the value reach a join together (same incoming edge of two
+			// phis of one block) and the joined error is what is tested and returned
+			carrierE := ssa.Value(errV)
+			var carrierV ssa.Value
+			if val != nil {
+				carrierV = val
+			}
+			if test == nil {
+				for _, ref := range referrers(errV) {
+					ephi, ok := ref.(*ssa.Phi)
+					if !ok {
+						continue
+					}
+					var t2 *ssa.If
+					e2 := -1
+					for _, ref2 := range referrers(ephi) {
+						bo, ok := ref2.(*ssa.BinOp)
+						if !ok || bo.Block() != ephi.Block() {
+							continue
+						}
+						x, isEq, okn := nilCompare(bo)
+						if !okn || x != ssa.Value(ephi) {
+							continue
+						}
+						for _, ref3 := range referrers(bo) {
+							if iff, ok := ref3.(*ssa.If); ok && iff.Block() == ephi.Block() {
+								t2 = iff
+								e2 = 0
+								if !isEq {
+									e2 = 1
+								}
+							}
+						}
+					}
+					if t2 == nil {
+						continue
+					}
+					// the value travels over the same edges into a phi of the same block, and nowhere else
+					okV := true
+					var vphi *ssa.Phi
+					if val != nil {
+						for _, vr := range referrers(val) {
+							p2, isPhi := vr.(*ssa.Phi)
+							if !isPhi || p2.Block() != ephi.Block() {
+								okV = false
+								continue
+							}
+							vphi = p2
+						}
+						if vphi != nil {
+							for i := range ephi.Edges {
+								if (ephi.Edges[i] == ssa.Value(errV)) != (vphi.Edges[i] == ssa.Value(val)) {
+									okV = false
+								}
+							}
+						}
+					}
+					if okV {
+						test, nilEdge, carrierE = t2, e2, ephi
+						if vphi != nil {
+							carrierV = vphi
+						}
+					}
+				}
+			}
 			if test == nil {
 				r.Fail(rule, pos, name, what, "the error is never compared with nil: evaluation continues with a value where the semantics demands the error")
 				return
@@ -294,21 +361,21 @@ func ruleErrChk(w *World, r *Report) {
 			// non-nil edge returns the error
 			eb := test.Block().Succs[1-nilEdge]
 			ret := blockReturn(eb)
-			retOK := ret != nil && len(ret.Results) == 2 && ret.Results[1] == ssa.Value(errV)
+			retOK := ret != nil && len(ret.Results) == 2 && ret.Results[1] == carrierE
 			if !retOK {
 				r.Fail(rule, w.InstrPos(test), name, what, "the non-nil edge does not immediately return that error")
 				return
 			}
 			// uses of the value
 			bad := ""
-			if val != nil {
-				for _, ref := range referrers(val) {
+			if carrierV != nil {
+				for _, ref := range referrers(carrierV) {
 					if ref == ssa.Instruction(ret) {
 						continue
 					}
 					if phi, ok := ref.(*ssa.Phi); ok {
 						for i, e := range phi.Edges {
-							if e != ssa.Value(val) {
+							if e != carrierV {
 								continue
 							}
 							pred := phi.Block().Preds[i]
@@ -322,7 +389,7 @@ func ruleErrChk(w *World, r *Report) {
 					if !edgeDominates(test.Block(), nilEdge, ref.Block()) {
 						// parking the value in a call-local buffer slot before the test is harmless:
 						// the error edge returns without reading it
-						if st, ok := ref.(*ssa.Store); ok && st.Val == ssa.Value(val) && ref.Block() == test.Block() {
+						if st, ok := ref.(*ssa.Store); ok && st.Val == carrierV && ref.Block() == test.Block() {
 							if ia, ok := st.Addr.(*ssa.IndexAddr); ok {
 								if _, isAlloc := ia.X.(*ssa.Alloc); isAlloc {
 									continue
@@ -899,6 +966,14 @@ var c01Witnesses = append(append(append(stepWitnessesEval, tableWitnesses...), b
 		{File: "engine.go", Old: "import (\n	\"context\"\n	\"errors\"\n)", New: "import (\n	\"context\"\n	\"errors\"\n	\"fmt\"\n)"}}},
 	{Name: "evalbool-masks-error", Rule: "R-ERRID", Edits: []Edit{
 		{File: "engine.go", Old: "	res, err := e.Eval(ctx)\n	if err != nil {\n		return false, err\n	}", New: "	res, err := e.Eval(ctx)\n	if err != nil {\n		return false, errors.New(\"evaluation failed\")\n	}"}}},
+	{Name: "benign-eval-arms-share-one-error-check", Rule: "R-ERRCHK", Benign: true, Edits: []Edit{
+		{File: "engine.go", Old: "\t\t\tres, err = curt.operator(ctx, param2[:])\n\t\t\tif err != nil {\n\t\t\t\treturn\n\t\t\t}\n\t\tcase variable:\n\t\t\tres, err = ctx.Get(curt.varKey, curt.value.(string))\n\t\t\tif err != nil {\n\t\t\t\treturn\n\t\t\t}\n\t\tcase constant:", New: "\t\t\tres, err = curt.operator(ctx, param2[:])\n\t\tcase variable:\n\t\t\tres, err = ctx.Get(curt.varKey, curt.value.(string))\n\t\tcase constant:"},
+		{File: "engine.go", Old: "\t\t\tres, err = curt.operator(ctx, params)\n\t\t\tif err != nil {\n\t\t\t\treturn\n\t\t\t}\n\t\tcase cond:", New: "\t\t\tres, err = curt.operator(ctx, params)\n\t\tcase cond:"},
+		{File: "engine.go", Old: "\t\t\treportEvent(e, os, osTop, curt.value)\n\t\t\tcontinue\n\t\t}\n\t\tif b, ok := res.(bool); ok {", New: "\t\t\treportEvent(e, os, osTop, curt.value)\n\t\t\tcontinue\n\t\t}\n\t\tif err != nil {\n\t\t\treturn\n\t\t}\n\t\tif b, ok := res.(bool); ok {"}}},
+	{Name: "shared-error-check-returns-nil-error", Rule: "R-ERRCHK", Edits: []Edit{
+		{File: "engine.go", Old: "\t\t\tres, err = curt.operator(ctx, param2[:])\n\t\t\tif err != nil {\n\t\t\t\treturn\n\t\t\t}\n\t\tcase variable:\n\t\t\tres, err = ctx.Get(curt.varKey, curt.value.(string))\n\t\t\tif err != nil {\n\t\t\t\treturn\n\t\t\t}\n\t\tcase constant:", New: "\t\t\tres, err = curt.operator(ctx, param2[:])\n\t\tcase variable:\n\t\t\tres, err = ctx.Get(curt.varKey, curt.value.(string))\n\t\tcase constant:"},
+		{File: "engine.go", Old: "\t\t\tres, err = curt.operator(ctx, params)\n\t\t\tif err != nil {\n\t\t\t\treturn\n\t\t\t}\n\t\tcase cond:", New: "\t\t\tres, err = curt.operator(ctx, params)\n\t\tcase cond:"},
+		{File: "engine.go", Old: "\t\t\treportEvent(e, os, osTop, curt.value)\n\t\t\tcontinue\n\t\t}\n\t\tif b, ok := res.(bool); ok {", New: "\t\t\treportEvent(e, os, osTop, curt.value)\n\t\t\tcontinue\n\t\t}\n\t\tif err != nil {\n\t\t\treturn res, nil\n\t\t}\n\t\tif b, ok := res.(bool); ok {"}}},
 	{Name: "cond-error-check-dropped", Rule: "R-ERRCHK", Edits: []Edit{
 		{File: "engine.go", Old: "			res, err = curt.operator(ctx, []Value{res})\n			if err != nil {\n				return\n			}\n			if res == true {\n				osTop = curt.osTop\n				i = curt.scIdx\n			}\n			continue\n		default:\n			reportEvent(e, os, osTop, curt.value)\n			continue\n		}\n		if b, ok := res.(bool); ok {", New: "			res, err = curt.operator(ctx, []Value{res})\n			if res == true {\n				osTop = curt.osTop\n				i = curt.scIdx\n			}\n			continue\n		default:\n			reportEvent(e, os, osTop, curt.value)\n			continue\n		}\n		if b, ok := res.(bool); ok {"}}},
 	{Name: "tryeval-second-operand-error-ignored", Rule: "R-ERRCHK", Edits: []Edit{
